@@ -207,7 +207,9 @@ class _ReadSourceGenerator:
                     bits_rollover = True
 
                 yield from flush()
-                yield from align_to_field(field)
+                if bits_rollover or field.offset is not None:
+                    # Only position the stream for a bit field that starts a new storage unit
+                    yield from align_to_field(field)
                 yield from self._generate_bits(field)
 
             # Everything else - basic and composite types (and arrays of them)
